@@ -103,6 +103,8 @@ impl World {
         let vs = VirtualSystem::new();
         let system: VSys = Rc::new(Concurrent::new(vs.clone()));
         let mut env = Env::with_system(system);
+        // the real `return`, `exit`, `false`, … and then the probe built-ins (which replace `echo`)
+        env.builtins.extend(yash_builtin::iter());
         env.builtins.extend(shell::probe_builtins());
         World { env, vs }
     }
@@ -236,7 +238,16 @@ fn run_ops(case: &str) -> (String, String, String) {
                 let action = match a.split_at(1) {
                     ("d", "") => Action::Default,
                     ("i", "") => Action::Ignore,
-                    ("c", n) if n.parse::<u64>().is_ok() => Action::Command(format!("probe {n}; st 7").into()),
+                    ("c", n) if n.parse::<u64>().is_ok() => {
+                        // the body is chosen by N / 1000 (see Main.lean)
+                        let tail = match n.parse::<u64>().unwrap() / 1000 {
+                            1 => "return 3",
+                            2 => "exit 4",
+                            3 => "false",
+                            _ => "st 7",
+                        };
+                        Action::Command(format!("probe {n}; {tail}").into())
+                    }
                     _ => return bad(),
                 };
                 let ov = match *ov {
@@ -426,9 +437,18 @@ fn run_ops(case: &str) -> (String, String, String) {
                 w.env.exit_status = ExitStatus(e);
                 let from = w.stdout_len();
                 let res = yash_semantics::trap::run_traps_for_caught_signals(&mut w.env).now_or_never();
-                if res.is_none() {
+                let Some(res) = res else {
                     return ("TIMEOUT(run_traps)".into(), "FAIL:timeout".into(), String::new());
-                }
+                };
+                use std::ops::ControlFlow::{Break, Continue};
+                use yash_env::semantics::Divert;
+                let div = match res {
+                    Continue(()) => "-".to_string(),
+                    Break(Divert::Return(s)) => format!("ret{}", s.map(|s| s.0).unwrap_or(-1)),
+                    Break(Divert::Exit(s)) => format!("exit{}", s.map(|s| s.0).unwrap_or(-1)),
+                    Break(Divert::Interrupt(s)) => format!("int{}", s.map(|s| s.0).unwrap_or(-1)),
+                    Break(_) => "other".to_string(),
+                };
                 let out = w.stdout_from(from);
                 // every body is `probe <c>; st 7`: one line `<$? on entry>:<hex c>` per run
                 let mut runs: Vec<String> = vec![];
@@ -460,13 +480,27 @@ fn run_ops(case: &str) -> (String, String, String) {
                         fail = Some("trap-saw-wrong-status".into());
                     }
                 }
-                if ran != due {
-                    fail = Some(format!("runs:{}:due:{}", ran.join("+"), due.join("+")));
+                // every delivered trapped signal's action runs exactly once: what ran now followed by
+                // what is still due is exactly what was due, whatever the actions ended in
+                let still_due: Vec<String> = CONDS
+                    .iter()
+                    .filter_map(|c| c.1)
+                    .filter_map(|n| match w.env.traps.get_state(n).0 {
+                        Some(TrapState { action: Action::Command(_), pending: true, .. }) => Some(name_of(n)),
+                        _ => None,
+                    })
+                    .collect();
+                let mut total = ran.clone();
+                total.extend(still_due.iter().cloned());
+                if total != due {
+                    fail = Some(format!("runs:{}:left:{}:due:{}", ran.join("+"), still_due.join("+"), due.join("+")));
+                } else if div == "-" && !still_due.is_empty() {
+                    fail = Some(format!("left-pending:{}", still_due.join("+")));
                 }
                 if w.env.exit_status != ExitStatus(e) {
                     fail = Some("exit-status-not-preserved".into());
                 }
-                format!("runs={};exit={}", runs.join(","), w.env.exit_status.0)
+                format!("runs={};exit={};div={}", runs.join(","), w.env.exit_status.0, div)
             }
             _ => return bad(),
         };
@@ -503,11 +537,18 @@ fn bit(s: &str) -> Option<bool> {
 // ------------------------------------------------------------------------------------------
 // script level: a signal at every command boundary
 
-/// `rs N`: sends SIGUSR1 to the shell process itself and returns exit status N.
+/// `rs N [SIG…]`: sends the signals (default USR1) to the shell process itself, all before the next
+/// command boundary, and returns exit status N.
 fn rs_main(env: &mut VEnv, args: Vec<yash_env::semantics::Field>) -> shell::BuiltinFuture<'_> {
     let n: i32 = args.first().and_then(|f| f.value.parse().ok()).unwrap_or(0);
+    let mut sigs: Vec<Number> = args.iter().skip(1).filter_map(|f| sig_of(&f.value)).collect();
+    if sigs.is_empty() {
+        sigs.push(SIGUSR1);
+    }
     Box::pin(async move {
-        env.system.raise(SIGUSR1).await.ok();
+        for s in sigs {
+            env.system.raise(s).await.ok();
+        }
         ExitStatus(n).into()
     })
 }
@@ -580,12 +621,111 @@ fn run_script_case(ws: &[&str]) -> (String, String) {
     (obs, oracle)
 }
 
+/// `multi <layout> <mode> <second> SIG:K SIG:K [SIG:K]` (see Main.lean): several trapped signals
+/// pending at the same command boundary, actions that return / exit / fail / redefine the trap.
+fn run_multi_case(ws: &[&str]) -> (String, String) {
+    let bad = || ("bad-case".to_string(), "-".to_string());
+    if ws.len() < 4 {
+        return bad();
+    }
+    let (Ok(layout), Ok(mode), Ok(second)) = (ws[0].parse::<usize>(), ws[1].parse::<usize>(), ws[2].parse::<usize>()) else {
+        return bad();
+    };
+    if layout > 2 || mode > 1 || second > 1 {
+        return bad();
+    }
+    let mut sks: Vec<(&str, Number, &str)> = vec![];
+    for w in &ws[3..] {
+        let Some((s, k)) = w.split_once(':') else { return bad() };
+        let Some(n) = sig_of(s) else { return bad() };
+        if !["P", "R", "E", "F", "N"].contains(&k) {
+            return bad();
+        }
+        sks.push((s, n, k));
+    }
+    let mut script = String::new();
+    for (name, n, k) in &sks {
+        let tag = n.as_raw() + 200;
+        let act = match *k {
+            "P" => format!("probe {tag}"),
+            "R" => format!("probe {tag}; return 3"),
+            "E" => format!("probe {tag}; exit 4"),
+            "F" => format!("probe {tag}; false"),
+            _ => format!("probe {tag}; trap \"probe {}\" {name}", tag + 500),
+        };
+        script.push_str(&format!("trap '{act}' {name}\n"));
+    }
+    let names: Vec<&str> = sks.iter().map(|x| x.0).collect();
+    let raise1 = if mode == 0 {
+        format!("rs 6 {}", names.join(" "))
+    } else {
+        let kills: Vec<String> = names.iter().map(|n| format!("kill -s {n} $$")).collect();
+        format!("({})", kills.join("; "))
+    };
+    let body: Vec<String> = if layout == 2 {
+        vec!["probe 1".into(), format!("{{ {raise1}; probe 2; }}"), "st 5".into(), "probe 3".into()]
+    } else {
+        vec!["probe 1".into(), raise1.clone(), "probe 2".into(), "st 5".into(), "probe 3".into()]
+    };
+    let file = format!("{}\n", body.join("\n"));
+    if layout == 1 {
+        script.push_str(". /f.sh\n");
+    } else {
+        script.push_str(&format!("f() {{ {}; }}\nf\n", body.join("; ")));
+    }
+    script.push_str("probe 4\n");
+    if second == 1 {
+        script.push_str(&format!("rs 2 {}\n", names.join(" ")));
+    }
+    script.push_str("probe 5\nprobe 6\n");
+    let (o, _) = shell::run_with(
+        shell::Config::new(&script),
+        move |env, state| {
+            env.builtins.insert("rs", yash_env::builtin::Builtin::new(yash_env::builtin::Type::Mandatory, rs_main));
+            shell::write_file(state, "/f.sh", file.as_bytes());
+        },
+        |_, _| (),
+    );
+    let out = o.stdout_str();
+    let trace: Vec<&str> = out.lines().collect();
+    let obs = format!("trace={} exit={}", trace.join(","), o.exit_status);
+    // The statement evaluated directly: every delivered trapped signal's action runs exactly once,
+    // unless the shell ended first (then at most once).
+    let has = |n: u32| trace.iter().any(|l| l.ends_with(&format!(":{}", enc_str(&n.to_string()))));
+    let finished = has(6);
+    let reached_second = second == 1 && has(4) && (has(5) || !finished);
+    let mut oracle = "ok".to_string();
+    if o.stuck {
+        oracle = "FAIL:stuck".into();
+    }
+    for (name, n, k) in &sks {
+        let tag = (n.as_raw() + 200) as u32;
+        let old = trace.iter().filter(|l| l.ends_with(&format!(":{}", enc_str(&tag.to_string())))).count();
+        let new = trace.iter().filter(|l| l.ends_with(&format!(":{}", enc_str(&(tag + 500).to_string())))).count();
+        let deliveries = 1 + second;
+        if finished {
+            if old + new != deliveries {
+                oracle = format!("FAIL:{name}:delivered-{deliveries}-ran-{}", old + new);
+            }
+        } else if old + new > if reached_second { deliveries } else { 1 } {
+            oracle = format!("FAIL:{name}:ran-{}-times", old + new);
+        }
+        if *k == "N" && (old > 1 || new > second) || *k != "N" && new > 0 {
+            oracle = format!("FAIL:{name}:redefinition");
+        }
+    }
+    (obs, oracle)
+}
+
 // ------------------------------------------------------------------------------------------
 
 fn run_case(case: &str) -> (String, String, String) {
     let ws: Vec<&str> = case.split_whitespace().collect();
     if ws.first() == Some(&"script") {
         let (o, v) = run_script_case(&ws[1..]);
+        (o, v, String::new())
+    } else if ws.first() == Some(&"multi") {
+        let (o, v) = run_multi_case(&ws[1..]);
         (o, v, String::new())
     } else {
         run_ops(case)
@@ -679,7 +819,8 @@ fn random_op(r: &mut Rng, sigs: &[&str]) -> String {
             let a = match r.below(4) {
                 0 => "d".to_string(),
                 1 => "i".to_string(),
-                _ => format!("c{}", 1 + r.below(3)),
+                2 => format!("c{}", 1 + r.below(3)),
+                _ => format!("c{}", 1000 * r.below(4) + 1 + r.below(3)),
             };
             format!("set {c} {a} {}", if r.chance(1, 4) { 1 } else { 0 })
         }
@@ -794,4 +935,82 @@ fn main() {
             }
         }
     }
+
+    // 4. several trapped signals pending at the same boundary (ops leg): every ordered choice of
+    //    2-3 distinct signals, every assignment of body kinds (plain / return / exit / false),
+    //    deliveries in the opposite order, then three boundaries
+    let pool = ["INT", "TERM", "USR1", "CHLD"];
+    let kinds = [0usize, 1, 2, 3];
+    let mut choices: Vec<Vec<&str>> = vec![];
+    for a in pool {
+        for b in pool {
+            if a != b {
+                choices.push(vec![a, b]);
+                if o.thorough() {
+                    for c in pool {
+                        if c != a && c != b {
+                            choices.push(vec![a, b, c]);
+                        }
+                    }
+                }
+            }
+        }
+    }
+    if !o.thorough() {
+        choices.push(vec!["USR1", "INT", "TERM"]);
+        choices.push(vec!["TERM", "CHLD", "INT"]);
+    }
+    for sigs in &choices {
+        let n = sigs.len();
+        for code in 0..kinds.len().pow(n as u32) {
+            let mut parts: Vec<String> = vec![];
+            let mut c = code;
+            for (i, s) in sigs.iter().enumerate() {
+                parts.push(format!("set {s} c{} 0", 1000 * kinds[c % 4] + i + 1));
+                c /= 4;
+            }
+            for s in sigs.iter().rev() {
+                parts.push(format!("deliver {s}"));
+            }
+            parts.extend(["run 5".to_string(), "run 6".to_string(), "run 7".to_string(), "take".to_string()]);
+            let case = parts.join("; ");
+            let (obs, oracle, _) = run_guarded(&case);
+            out(&case, &obs, &oracle);
+        }
+    }
+
+    // 5. the same at script level: traps that return / exit / fail / redefine themselves, signals
+    //    sent together inside a function, a nested group or a dot script, by a built-in or from a
+    //    foreground subshell, optionally delivered a second time
+    let ks = ["P", "R", "E", "F", "N"];
+    let subsets: Vec<Vec<&str>> =
+        vec![vec!["INT", "USR1"], vec!["USR1", "TERM"], vec!["TERM", "INT"], vec!["USR1", "INT", "TERM"]];
+    let mut count = 0usize;
+    for sigs in &subsets {
+        let n = sigs.len();
+        for code in 0..ks.len().pow(n as u32) {
+            for layout in 0..3 {
+                for mode in 0..2 {
+                    for second in 0..2 {
+                        count += 1;
+                        // three signals: one (layout, mode, second) combination per assignment in the
+                        // quick tier, all of them in the thorough tier
+                        if n == 3 && !o.thorough() && (layout, mode, second) != (code % 3, (code / 3) % 2, (code / 6) % 2) {
+                            continue;
+                        }
+                        let mut c = code;
+                        let mut sk: Vec<String> = vec![];
+                        for s in sigs {
+                            sk.push(format!("{s}:{}", ks[c % 5]));
+                            c /= 5;
+                        }
+                        let case = format!("multi {layout} {mode} {second} {}", sk.join(" "));
+                        let (obs, oracle, _) = run_guarded(&case);
+                        out(&case, &obs, &oracle);
+                    }
+                }
+            }
+        }
+    }
+    let _ = count;
 }
